@@ -251,7 +251,9 @@ def units(tier, seed):
     us = []
     for si in range(len(seeds())):
         for fault in list(MUTATORS) + ['notype']:
-            if fault == 'stray':
+            if fault == 'aftercomment' and tier == 'quick' and si not in (0, 2):
+                continue            # (quick: the plain style of both models)
+            if fault in ('stray', 'aftercomment'):
                 for part in range(8):
                     us.append((si, fault, part, 8))
             else:
